@@ -1,5 +1,5 @@
 CONSTANTS
-  Dev = {"CrlfAfterBody"}
+  Dev = {"CrlfAfterBody", "ReadAheadLost"}
   BufCap = 8192
   HasTimeout = FALSE
 SPECIFICATION TraceSpec
